@@ -1,7 +1,7 @@
 /-
 C05 driver.  Case lines:
   tbs  NAME CLS TYPE ALG LABELS ORIGTTL EXP INC TAG SIGNER REC*   → `ok HEX` | `err` | `panic …`
-  tbsfixed …same…  → the same for the model of the repaired code (Tbs.tbsFixed)
+  tbsold …same…                                                   → the same for the pre-repair model (Tbs.tbsPreFix; regression only)
   spec NAME CLS TYPE ALG LABELS ORIGTTL EXP INC TAG SIGNER REC*   → `some HEX` | `none`   (Spec.signedData)
   rdata TYPE RDATA                                                    → `KEYHEX CANONHEX|none`
   detname NAME LABELS                                              → outcome of determine_name
@@ -69,17 +69,12 @@ def parseCase (toks : List String) : Option Case :=
 def handle (toks : List String) : Option String :=
   match toks with
   | "tbs" :: rest => do
-    -- the code as it is after the repair `fix: TBS canonical RR order`
-    let c ← parseCase rest
-    pure (showOutcome toHex (tbsFixed c.name c.cls c.input c.records))
-  | "tbsold" :: rest => do
-    -- model of TBS::new before the repair (kept for the regression counter-examples)
     let c ← parseCase rest
     pure (showOutcome toHex (tbsImpl c.name c.cls c.input c.records))
-  | "tbsfixed" :: rest => do
-    -- model of the repaired TBS::new (repo-patches/C05-tbs-canonical-order.diff)
+  | "tbsold" :: rest => do
+    -- model of TBS::new before the repair /repo 628570a (regression only)
     let c ← parseCase rest
-    pure (showOutcome toHex (tbsFixed c.name c.cls c.input c.records))
+    pure (showOutcome toHex (tbsPreFix c.name c.cls c.input c.records))
   | "spec" :: rest => do
     let c ← parseCase rest
     let rrset := collect c.name c.cls c.input c.records
